@@ -148,6 +148,8 @@ class Expr(object):
     def canonize(self):
         def my_canon(e):
             if isinstance(e, ExprOp):
+                if not e.op in op_assoc:
+                    return e
                 args = canonize_expr_list(e.args)
                 return ExprOp(e.op, *args)
             elif isinstance(e, ExprCompose):
